@@ -101,6 +101,10 @@ func main() {
 	if len(os.Args) > 4 && os.Args[4] == "forced" {
 		rand.Reader = &forcedReader{state: uint64(seed)*2654435761 + 1}
 	}
+	if len(os.Args) > 4 && os.Args[4] == "cold" {
+		coldMain(g, iters, seed)
+		return
+	}
 
 	// ---- shared character recipes; expectations computed before any sharing, on private copies
 	recipes := []spg.CharRecipe{
@@ -140,6 +144,8 @@ func main() {
 		{spg.NewSFFunction(spg.CharRecipe{Length: 3, AllowChars: "ab", RequireSets: []string{"xy", "12"}}), func(s string) bool {
 			return len(s) == 3 && strings.ContainsAny(s, "xy") && strings.ContainsAny(s, "12")
 		}},
+		// a constructed function whose recipe leaves Length unset: Generate refuses, the separator is empty
+		{spg.NewSFFunction(spg.CharRecipe{Allow: spg.Digits}), func(s string) bool { return s == "" }},
 	}
 	schemes := []spg.CapScheme{spg.CSNone, spg.CSFirst, spg.CSAll, spg.CSRandom, spg.CSOne}
 	var wls []*wlCase
@@ -177,6 +183,9 @@ func main() {
 		}
 		if i%len(seps) == 6 {
 			tw.SeparatorFunc = spg.NewSFFunction(spg.CharRecipe{Length: 3, AllowChars: "ab", RequireSets: []string{"xy", "12"}})
+		}
+		if i%len(seps) == 7 {
+			tw.SeparatorFunc = spg.NewSFFunction(spg.CharRecipe{Allow: spg.Digits})
 		}
 		c.entropy = tw.Entropy()
 		c.entKnown = true
@@ -277,10 +286,94 @@ func main() {
 					atomic.AddInt64(&calls, 1)
 				}
 				// the package-level presets and a constructed function, called directly
-				mark("s", 1+(n%6), 0)
-				sv, _ := seps[1+(n%6)].f()
-				if !seps[1+(n%6)].ok(sv) {
-					bad("separator function %d returned %q", 1+(n%6), sv)
+				mark("s", 1+(n%7), 0)
+				sv, _ := seps[1+(n%7)].f()
+				if !seps[1+(n%7)].ok(sv) {
+					bad("separator function %d returned %q", 1+(n%7), sv)
+				}
+				atomic.AddInt64(&calls, 1)
+			}
+		}(t)
+	}
+	close(start)
+	wg.Wait()
+	nc := 0
+	combos.Range(func(k, v interface{}) bool { nc++; return true })
+	fmt.Printf("RESULT calls=%d combos=%d invalid=%d first=%s\n", calls, nc, invalid, strconv.Quote(first))
+}
+
+// coldMain: the goroutines make the FIRST calls of the process.  Nothing of the library is touched before they
+// start (no expectation is computed in advance), so anything the package initialises lazily is initialised
+// concurrently.  The deterministic methods must give every goroutine the same answer; passwords are validated
+// against the first Alphabet() answer recorded for their recipe.
+func coldMain(g, iters, seed int) {
+	recipes := []spg.CharRecipe{
+		{Length: 8, Allow: spg.Letters, Require: spg.Ambiguous},
+		{Length: 9, Allow: spg.All, Require: spg.Digits | spg.Ambiguous},
+		{Length: 6, Allow: spg.Lowers, Require: spg.Uppers | spg.Symbols},
+		{Length: 7, Allow: spg.Digits, RequireSets: []string{"xyz"}, Exclude: spg.Ambiguous, ExcludeChars: "x"},
+		{Length: 5, Allow: spg.Symbols | spg.Ambiguous},
+	}
+	words := []string{"alpha", "beta", "Beta", "gamma", "4", "o'neil"}
+	var answers sync.Map
+	agree := func(key, val string) {
+		if prev, loaded := answers.LoadOrStore(key, val); loaded && prev.(string) != val {
+			bad("%s gave %q to one goroutine and %q to another", key, prev, val)
+		}
+	}
+	var calls int64
+	var wg sync.WaitGroup
+	start := make(chan struct{})
+	for t := 0; t < g; t++ {
+		wg.Add(1)
+		go func(t int) {
+			defer wg.Done()
+			<-start
+			for k := 0; k < iters; k++ {
+				n := t*7919 + k*104729 + seed
+				ri := (n + t) % len(recipes)
+				r := recipes[ri] // each call works on its own copy of the value
+				mark("cold", ri, (n/5)%6)
+				switch (n / 5) % 6 {
+				case 0:
+					p, err := r.Generate()
+					if err != nil {
+						bad("cold char Generate error %v", err)
+					} else if len(p.Tokens()) != r.Length {
+						bad("cold char password %q has %d tokens, Length %d", p.String(), len(p.Tokens()), r.Length)
+					} else {
+						a := r.Alphabet()
+						for _, tk := range p.Tokens() {
+							if !strings.Contains(a, tk.Value()) {
+								bad("cold char password %q: %q not in alphabet %q", p.String(), tk.Value(), a)
+							}
+						}
+					}
+				case 1:
+					agree(fmt.Sprintf("recipe %d Alphabet()", ri), r.Alphabet())
+				case 2:
+					agree(fmt.Sprintf("recipe %d Entropy()", ri), fmt.Sprint(math.Float32bits(r.Entropy())))
+				case 3:
+					agree(fmt.Sprintf("recipe %d SuccessProbability()", ri), fmt.Sprint(math.Float32bits(r.SuccessProbability())))
+				case 4:
+					wl, err := spg.NewWordList(words) // the caller's slice is shared read-only
+					if err != nil {
+						bad("cold NewWordList error %v", err)
+						break
+					}
+					agree("NewWordList size", fmt.Sprint(wl.Size()))
+					wr := spg.NewWLRecipe(3, wl)
+					wr.Capitalize = []spg.CapScheme{spg.CSRandom, spg.CSOne, spg.CSAll}[n%3]
+					wr.SeparatorFunc = []spg.SFFunction{spg.SFDigits1, spg.SFSymbols, spg.SFDigitsNoAmbiguous2}[(n/3)%3]
+					agree(fmt.Sprintf("wordlist recipe %d/%d Entropy()", n%3, (n/3)%3), fmt.Sprint(math.Float32bits(wr.Entropy())))
+					if p, err := wr.Generate(); err != nil || len(p.Tokens().Atoms()) != 3 {
+						bad("cold wordlist Generate: %v", err)
+					}
+				case 5:
+					sv, _ := []spg.SFFunction{spg.SFDigits2, spg.SFDigitsSymbols, spg.SFNone}[n%3]()
+					if len(sv) != []int{2, 1, 0}[n%3] {
+						bad("cold preset %d returned %q", n%3, sv)
+					}
 				}
 				atomic.AddInt64(&calls, 1)
 			}
